@@ -114,6 +114,19 @@ def run(facts, rep, tier):
                 rep.check(0 <= c <= limit, 'LO.1', f'{label}: constant length {c} <= {limit}', n.shortloc(), f'writes {c} bytes into {arr.name}[{size}] (at most {limit} allowed here)', key=f'LO.1|const|{base}|{n.line - g.line}', fn=g.name)
                 continue
             ok, why = bounded(g, n, L, limit)
+            if not ok and g is not f:
+                # a helper: the bound may be established by its callers (every call site must do so, with the arguments it passes)
+                sites = [(h, c) for h in scope.values() for c in h.nodes() if c.k == 'call' and c.callee_in_root and any(t is g for t in facts.resolve(c))]
+                if sites:
+                    res_ = []
+                    for h, c in sites:
+                        cargs = c.ns('args')
+                        if c.ck == 'op' and len(cargs) == len(g.d['params']) + 1: cargs = cargs[1:]
+                        subst = {p_['decl']: (cargs[i], h) for i, p_ in enumerate(g.d['params']) if i < len(cargs) and cargs[i] is not None}
+                        res_.append((h, c) + bounded(h, c, L, limit, subst=subst, lfn=g))
+                    bad = [r_ for r_ in res_ if not r_[2]]
+                    if not bad: ok, why = True, ''; label += f' (bounded at its {len(sites)} call site(s))'
+                    else: why = f'at the call at {bad[0][1].shortloc()}: ' + bad[0][3]
             rep.check(ok, 'LO.1', f'{label}: length is bounded by a dominating guard (<= {limit}, non-negative)', n.shortloc(), why, key=f'LO.1|guard|{base}|{guards.strip_casts(L).text()[:40]}', fn=g.name)
         for n in g.nodes():
             if n.k == 'binop' and n.op == '=' and n.n('lhs') is not None and n.n('lhs').k == 'subscript':
@@ -403,41 +416,87 @@ def table_has(facts, tbl, value, code):
     return False
 
 
-def bounded(f, use, L, limit):
-    """is `L` (length / index expression at `use`) proven to lie in [0, limit] by the guards that dominate `use`?"""
-    cfg = f.cfg
-    known = guards.known_at(f, use)
+def _linform(n, fn, subst=None, depth=0):
+    """linear form of an integer / pointer expression over leaf variables: ({key: coefficient}, constant) or None.
+    Casts are dropped, single-assignment locals are expanded to their initialiser, parameters in `subst` are replaced by the
+    argument expression of the call site (evaluated in the caller)."""
+    n = guards.strip_casts(n)
+    while n is not None and n.k == 'paren' and n.n('sub') is not None: n = guards.strip_casts(n.n('sub'))
+    if n is None or depth > 8: return None
+    c = guards.const_of(n)
+    if c is not None and n.k != 'ref': return ({}, c)
+    if n.k == 'ref':
+        if subst and n.decl in subst:
+            a, afn = subst[n.decl]
+            return _linform(a, afn, None, depth + 1)
+        if n.dk == 'local':
+            init = guards.single_assignment_init(fn, n.decl)
+            if init is not None:
+                r = _linform(init, fn, subst, depth + 1)
+                if r is not None: return r
+        if c is not None: return ({}, c)
+        return ({('v', fn.tu.name, n.decl): 1}, 0)
+    if n.k == 'binop' and n.op in ('+', '-'):
+        l, r = _linform(n.n('lhs'), fn, subst, depth + 1), _linform(n.n('rhs'), fn, subst, depth + 1)
+        if l is None or r is None: return None
+        sg = 1 if n.op == '+' else -1
+        t = dict(l[0])
+        for k, v in r[0].items():
+            t[k] = t.get(k, 0) + sg * v
+            if t[k] == 0: del t[k]
+        return (t, l[1] + sg * r[1])
+    if n.k == 'unop' and n.op == '-':
+        r = _linform(n.n('sub'), fn, subst, depth + 1)
+        return None if r is None else ({k: -v for k, v in r[0].items()}, -r[1])
+    return ({('e', n.text()[:60]): 1}, 0)            # an opaque leaf (strlen(x), a member, …)
+
+
+def bounded(f, use, L, limit, subst=None, lfn=None):
+    """is `L` (length / index expression) proven to lie in [0, limit] by the guards that dominate `use` in `f`?
+    `L` is written in function `lfn` (default f); with `subst` (parameter decl -> (argument, caller)) the guards are those of the caller
+    at the call site `use`.  Guards and length are compared as linear forms, so `dotDelim - (delim + 1)` meets `dotDelim - delim - 1`."""
+    lfn = lfn or f
     Ls = guards.strip_casts(L)
-    # resolve a single-assignment local to its defining expression as an alternative spelling
-    alts = [Ls]
-    if Ls.k == 'ref' and Ls.dk == 'local':
-        init = guards.single_assignment_init(f, Ls.decl)
-        if init is not None: alts.append(guards.strip_casts(init))
-    upper = None; lower = False; why = []
+    target = _linform(L, lfn, subst)
+    if target is None: return False, f'`{Ls.text()[:50]}` is not a linear expression the guard analysis follows'
     norm = lambda t: (t or '').replace('const ', '').replace('volatile ', '').strip()
     signed_len = norm(L.type) in SIGNED or norm(Ls.type) in SIGNED
-    for atom, pol in known:
+    upper = None; lower = False; why = []
+    if not target[0]:
+        return (0 <= target[1] <= limit), f'constant length {target[1]} (at most {limit} allowed)'
+    FLIP_ = {'<': '>', '>': '<', '<=': '>=', '>=': '<=', '==': '==', '!=': '!='}
+    for atom, pol in guards.known_at(f, use):
         a = guards.strip_casts(atom)
         if a.k != 'binop' or a.op not in ('<', '<=', '>', '>=', '==', '!='): continue
-        lhs, rhs, op = a.n('lhs'), a.n('rhs'), a.op
+        op = a.op
         if not pol: op = {'<': '>=', '<=': '>', '>': '<=', '>=': '<', '==': '!=', '!=': '=='}[op]
-        for x, y, o in ((lhs, rhs, op), (rhs, lhs, {'<': '>', '>': '<', '<=': '>=', '>=': '<=', '==': '==', '!=': '!='}[op])):
-            if any(guards.same_expr(x, alt) for alt in alts):
-                c = guards.const_of(y)
-                unsigned_cmp = not (a.d.get('lhs_signed') if x is lhs else a.d.get('rhs_signed'))
-                if c is not None and o in ('<', '<='):
-                    ub = c - 1 if o == '<' else c
-                    if not _unchanged(f, atom, use, x): why.append('a value of the guard is modified between the guard and the write'); continue
-                    if upper is None or ub < upper: upper = ub
-                    if unsigned_cmp: lower = True
-                if c is not None and o in ('>', '>=') and ((c >= 0 and o == '>=') or (c >= -1 and o == '>')): lower = True
-        # lower bound through an ordering guard on a pointer difference: L = a - b [- k]  and  b < a / b + k <= a known
-        for alt in alts:
-            if alt.k == 'binop' and alt.op == '-':
-                hi, lo, k = _difference(alt)
-                if hi is not None:
-                    for x, y, o in ((lhs, rhs, op), (rhs, lhs, {'<': '>', '>': '<', '<=': '>=', '>=': '<=', '==': '==', '!=': '!='}[op])):
-                        if guards.same_expr(x, lo) and guards.same_expr(y, hi) and ((o == '<' and k <= 1) or (o == '<=' and k <= 0)): lower = True
+        la, lb = _linform(a.n('lhs'), f), _linform(a.n('rhs'), f)
+        if la is None or lb is None: continue
+        D = dict(la[0])
+        for k, v in lb[0].items():
+            D[k] = D.get(k, 0) - v
+            if D[k] == 0: del D[k]
+        dc = la[1] - lb[1]
+        # D + dc  op  0 ;  is D == +target or D == -target (up to the constant)?
+        for sgn in (1, -1):
+            if D != {k: sgn * v for k, v in target[0].items()}: continue
+            # sgn*t' + dc op 0 where t' = target - target_const  =>  sgn*target + (dc - sgn*target_const) op 0
+            k0 = dc - sgn * target[1]
+            o = op if sgn == 1 else FLIP_[op]
+            kk = k0 if sgn == 1 else -k0            # target + kk  o  0   (after dividing by sgn)
+            unsigned_cmp = not (a.d.get('lhs_signed') and a.d.get('rhs_signed')) and not (a.d.get('lhs_signed') is True and lb[0] == {}) if ('lhs_signed' in a.d or 'rhs_signed' in a.d) else False
+            if o in ('<', '<='):
+                ub = -kk - 1 if o == '<' else -kk
+                if not _unchanged(f, atom, use, a): why.append('a value of the guard is modified between the guard and the write'); continue
+                if upper is None or ub < upper: upper = ub
+                if unsigned_cmp and not lb[0] and sgn == 1: lower = True          # (size_t)x < C with x the length itself
+                if not (a.d.get('lhs_signed')) and not lb[0] and sgn == 1: lower = True
+            if o in ('>', '>='):
+                lbv = -kk + 1 if o == '>' else -kk
+                if lbv >= 0: lower = True
+            if o == '==' and -kk >= 0:
+                if upper is None or -kk < upper: upper = -kk
+                lower = True
     if not signed_len: lower = True
     if upper is None:
         return False, f'no dominating guard compares `{Ls.text()[:50]}` with a constant: the length is unbounded (and may be negative, i.e. huge as size_t)' + (f' [{"; ".join(why)}]' if why else '')
@@ -612,6 +671,11 @@ def _selection_rules(facts, rep, f):
         if b is None: return False
         if b.k == 'ref' and (b.decl in loopvars or any(t_ in ((b.d.get('decltype') or '') + ' ' + (b.type or '')) for t_ in ENTRY_T)): return True
         return b.k in ('subscript', 'unop') and any(t_ in (b.type or '') for t_ in ENTRY_T)        # languageInfo[i].code, it->code
+    _entryp_member = entryp
+    def entryp(y):
+        # a whole table entry handed on (`matches(inf, buffer)`) counts as well: the helper looks at its members
+        if _entryp_member(y): return True
+        return y.k == 'ref' and y.dk in ('local', 'param') and (y.decl in loopvars or any(t_ in ((y.d.get('decltype') or '') + ' ' + (y.type or '')) for t_ in ENTRY_T)) and '[' not in (y.type or '')
     n5 = 0; allok = True
     # get() and the helpers of this file it reaches
     scope = {}; work = [f]
